@@ -2278,7 +2278,7 @@ def ep_isophote(S):
                 out[key + 'angles'], out[key + 'radii'], out[key + 'intensities'] = ex[0], ex[1], ex[2]
                 out[key + 'mean'] = smp.mean
             iso = _try(lambda: Ellipse(S.gal, EllipseGeometry(x0, y0, sma, eps - 0.05, pa + 0.1, astep=astep)).fit_isophote(
-                sma, integrmode=mode))
+                sma, integrmode=mode, maxit=4, minit=2))
             for a in ('intens', 'int_err', 'eps', 'pa', 'x0', 'y0', 'rms', 'ndata', 'stop_code', 'tflux_e', 'npix_e'):
                 if isinstance(iso, Raised):
                     out[key + 'fit_' + a] = iso
